@@ -27,11 +27,14 @@ def check(run):
                 "signing path and must verify, every corruption must not; non-trivial = every case")
     for m in ("notrailer", "nolength"):
         run.mutant("Gpg", f"Gpg_mut_{m}.cfg", expect="ASSUME", timeout=600)
+    run.mutant("Gpg", "Gpg_mut_hash.cfg", expect="HashInv", timeout=600)
     r = run.tlc("Gpg", "Gpg.cfg", expect_cases=True, timeout=900, workers=8)
     # twin cross-check on the bounded domain
-    same = {}
+    same, hash_cases = {}, []
     for c in r.cases:
-        if c["kind"] == "digest":
+        if c["kind"] == "hash":
+            hash_cases.append(c)
+        elif c["kind"] == "digest":
             got = crypto.gpg_digest_input(bytes(c["data"]), bytes(c["hdr"]), c["framing"])
             if got != bytes(c["bytes"]):
                 raise MachineryFailure(f"harness framing {c['framing']} disagrees with Gpg.tla on {c}")
@@ -48,7 +51,7 @@ def check(run):
 
     def run_case(framing, n, psize, algo, corruption):
         hdr = bytes(rr.getrandbits(8) for _ in range(min(n, 64))) + bytes([rr.getrandbits(8)]) * max(0, n - 64)
-        data = bytes(rr.getrandbits(8) for _ in range(psize))
+        data = bytes(rr.getrandbits(8) for _ in range(psize)) if psize <= 1000 else rr.randbytes(psize)
         k = 1
         sig = crypto.gpg_sign(keys.seeds[k], data, hdr, framing, algo, ref=rr.random() < 0.02)
         pub = keys.pub[k]
@@ -57,6 +60,10 @@ def check(run):
             d2 = gamma.flip_bit(data, rr)
         elif corruption == "payload_bit":
             d2 = b"\x00"
+        elif corruption == "payload_tail" and data:
+            d2 = data[:-1] + bytes([data[-1] ^ 0x20])
+        elif corruption == "payload_tail":
+            d2 = b" "
         elif corruption == "header_bit":
             h2 = gamma.flip_bit(hdr, rr)
         elif corruption == "sig_bit":
@@ -118,6 +125,36 @@ def check(run):
             run_case("rfc", n, ps, "sha512", "none")
             for c in corruptions[1:]:
                 run_case("rfc", n, ps, "sha256", c)
+    # scale: payloads around and beyond 1 MiB / 16 MiB block boundaries (hashing must cover every byte)
+    big_sizes = [2 ** 20 - 1, 2 ** 20, 2 ** 20 + 1, 3 * 2 ** 20 + 17] + ([] if quick else [2 ** 24 + 5, 65536, 65537, 10 ** 6])
+    for ps in big_sizes:
+        for n in (35, 257):
+            for c in ("none", "payload_tail", "payload_bit", "payload_extended", "boundary_shift", "sig_bit"):
+                run_case("rfc", n, ps, "sha256", c)
+            run_case("notrailer", n, ps, "sha256", "none")
+    run.extra["largest_payload_bytes"] = max(big_sizes)
+    # the digest algorithm is SHA-256 whatever the header's hash-algorithm octet says (Gpg.tla, HashCounts)
+    octet = dict(gamma.OTHER_HASHES, sha256=8)
+    for hc in hash_cases:
+        for base in (crypto.DEFAULT_HDR, gamma.HEADERS[1], gamma.HEADERS[2], b"\x01\x02\x03\x04\x05"):
+            for ps in (0, 1, 1000):
+                data = bytes(rr.getrandbits(8) for _ in range(ps))
+                if hc["named"] == "none":
+                    hb = b"\x05" + base[1:]
+                else:
+                    hb = base[:3] + bytes([octet[hc["hash"]] if hc["named"] == "same" else 8]) + base[4:]
+                sig = crypto.gpg_sign(keys.seeds[1], data, hb, "rfc", hc["hash"])
+                entry = {"other_headers": hb.hex(), "signature": sig.hex()}
+                out, exc, _ = lib.call(auth.verify_gpg_signature, entry, keys.pub[1], data)
+                run.evaluations += 1
+                desc = f"hash={hc['hash']} header names {hc['named']} payload={ps} header={hb.hex()[:12]}"
+                run._distinct.add(desc)
+                run.traces_validated += 1
+                if (out == "accept") != hc["counts"]:
+                    run.violation(f"verify_gpg_signature {'accepts' if out == 'accept' else 'rejects (' + out + ')'} a signature over the "
+                                  f"{hc['hash']} digest of DigestInput(payload, header) (header's hash octet names: {hc['named']})",
+                                  {"kind": "gpg", "desc": desc, "entry": entry, "key": keys.pub[1], "data_hex": data.hex(), "outcome": out, "exc": exc})
+    run.extra["hash_algorithm_cases"] = len(hash_cases)
     # header content is opaque: every byte value at each of the first positions of the hashed header (version, signature
     # type, algorithms, length), with payloads that contain CR / LF / NUL / canonical JSON
     payloads = [twin_canon({"a": [1, 2], "b": "x"}), b"line1\nline2\r\nline3\rend\n", b"\x00\n\x00", b"no newline"]
